@@ -100,6 +100,27 @@ Proof.
     + injection H as <-. split; [exact Hinv1|]. split; [exact Hi1|]. split; [lia|]. intros _. lia.
 Qed.
 
+Lemma perform_all_nsolves_eq M solve ps : forall s s',
+  perform_all M solve s ps = Ok s' -> r_nsolves s' = r_nsolves s -> s' = s.
+Proof.
+  destruct ps as [|p ps]; intros s s' H Hn.
+  - simpl in H. now injection H as <-.
+  - exfalso. cbn [perform_all] in H.
+    destruct (perform M solve s p) as [s1|e] eqn:E; [|discriminate]. cbn [bind] in H.
+    pose proof (perform_nsolves _ _ _ _ _ E) as Hn1.
+    assert (Hge : (r_nsolves s1 <= r_nsolves s')%nat).
+    { destruct (status_eqb (r_status s1) Optimal).
+      - clear E Hn1. revert s1 H. induction ps as [|q ps IH]; intros s1 H.
+        + simpl in H. injection H as <-. lia.
+        + cbn [perform_all] in H. destruct (perform M solve s1 q) as [s2|e] eqn:E2; [|discriminate].
+          cbn [bind] in H. pose proof (perform_nsolves _ _ _ _ _ E2).
+          destruct (status_eqb (r_status s2) Optimal).
+          * specialize (IH s2 H). lia.
+          * injection H as <-. lia.
+      - injection H as <-. lia. }
+    lia.
+Qed.
+
 Lemma add_info_inv base solve s line : inv base solve s -> inv base solve (add_info s line).
 Proof. intros [H1 H2 H3 H4 H5 H6]. constructor; auto. Qed.
 
@@ -124,8 +145,14 @@ Proof.
     assert (Hr0 : ready (add_info s (crit_info M c))) by exact Hready.
     destruct (perform_all_inv base solve M _ _ _ (add_info_inv _ _ _ _ Hinv) Hr0 E) as [Hinv1 [Hinfo1 _]].
     cbn [add_info r_info] in Hinfo1.
-    destruct (status_eqb (r_status s1) Optimal) eqn:Es.
-    + assert (Hr1 : ready s1). { right. destruct (r_status s1); try discriminate; reflexivity. }
+    destruct (status_eqb (r_status s1) Optimal || Nat.eqb (r_nsolves s1) (r_nsolves s)) eqn:Es.
+    + assert (Hr1 : ready s1).
+      { apply orb_true_iff in Es as [Es|Es].
+        - right. destruct (r_status s1); try discriminate; reflexivity.
+        - apply Nat.eqb_eq in Es.
+          assert (Hsame : s1 = add_info s (crit_info M c)).
+          { apply (perform_all_nsolves_eq M solve (expand M c)); [exact E|exact Es]. }
+          rewrite Hsame. exact Hr0. }
       destruct (IH s1 s' Hinv1 Hr1 H) as [Hinv' [j [Hj Hinfo]]].
       split; [assumption|]. exists (S j). split; [simpl; lia|].
       rewrite Hinfo, Hinfo1. cbn [firstn map]. rewrite concat_str_cons. now rewrite str_app_assoc.
